@@ -16,6 +16,10 @@ mod c11;
 mod c12;
 mod c13;
 mod c14;
+mod c16;
+mod c17;
+mod c18;
+mod c20;
 
 use common::*;
 use serde_json::Value;
@@ -39,6 +43,10 @@ fn table() -> Vec<(&'static str, &'static str, Explore, Replay)> {
         ("C12", "exploration", c12::explore, c12::replay),
         ("C13", "exploration", c13::explore, c13::replay),
         ("C14", "exploration", c14::explore, c14::replay),
+        ("C16", "exploration", c16::explore, c16::replay),
+        ("C17", "exploration", c17::explore, c17::replay),
+        ("C18", "exploration", c18::explore, c18::replay),
+        ("C20", "exploration", c20::explore, c20::replay),
     ]
 }
 
@@ -68,7 +76,7 @@ fn main() {
             let ctx = Ctx::new(id, tier, level);
             let r = std::panic::catch_unwind(std::panic::AssertUnwindSafe(|| explore(&ctx)));
             if r.is_err() {
-                eprintln!("MACHINERY FAILURE: the explorer itself panicked");
+                eprintln!("MACHINERY FAILURE: the explorer itself panicked: {:?}", c07::LAST_PANIC.lock().map(|g| g.clone()));
                 std::process::exit(3);
             }
             ctx.finish()
